@@ -72,7 +72,13 @@ func init() {
 	set("C18", func(c *propCfg) { c.QuickShards = 8; c.ThoroughShards = 16 })
 }
 
-const root = "/verif"
+// root is /verif, or the snapshot the wrapper script lives in (background runs started with `vp run`).
+var root = func() string {
+	if r := os.Getenv("VERIF_ROOT"); r != "" {
+		return r
+	}
+	return "/verif"
+}()
 
 var (
 	harness = filepath.Join(root, "harness")
